@@ -60,7 +60,7 @@ def base_pool(ev, extra):
                 '(1' + '0' * 200 + 'i)', '(2+0i)', '(0i)']
         return out
     # f64 / number
-    ints = list(range(-12, 13)) + [20, 21, 22, 63, 64, 100, 127, 128, 169, 170, 171, 172, 255, 256, 1000, 2**31, 2**32, 2**53 - 1, 2**53, 2**53 + 1, 2**62, 2**63 - 1] + extra
+    ints = list(range(-12, 13)) + [20, 21, 22, 63, 64, 100, 127, 128, 169, 170, 171, 172, 255, 256, 1000, 45, 90, 180, 270, 360, 720, 1080, -90, -180, -360, 2**31, 2**32, 2**53 - 1, 2**53, 2**53 + 1, 2**62, 2**63 - 1] + extra
     out = [str(k) if k >= 0 else '(-%d)' % -k for k in dict.fromkeys(ints) if abs(k) < 2**63]
     out += ['0.5', '1.5', '2.5', '3.5', '(-0.5)', '(-1.5)', '(-2.5)', '0.1', '0.3', '0.49999999999999994', '1.0000000000000002', '0.9999999999999999', '170.5', '(-170.5)', '0.0001',
             '1' + '0' * 22, '1' + '0' * 308, '0.' + '0' * 307 + '3', '0.' + '0' * 322 + '5', '(1/0)', '(-1/0)', '(0/0)', '(-0.0)', '9007199254740993', '4503599627370496.5',
